@@ -428,10 +428,14 @@ class Queue(Greenlet):
         tempfails = []
         permfails = []
         for rcpt, rcpt_res in results.items():
+            # An address may be listed more than once (RCPT TO repeated):
+            # the result applies to every position of it.
+            indexes = [i for i, other in enumerate(envelope.recipients)
+                       if other == rcpt]
             if rcpt_res is None or isinstance(rcpt_res, Reply):
-                delivered.add(envelope.recipients.index(rcpt))
+                delivered.update(indexes)
             elif isinstance(rcpt_res, PermanentRelayError):
-                delivered.add(envelope.recipients.index(rcpt))
+                delivered.update(indexes)
                 permfails.append((rcpt, rcpt_res.reply))
             elif isinstance(rcpt_res, TransientRelayError):
                 tempfails.append((rcpt, rcpt_res.reply))
